@@ -179,6 +179,10 @@ example : FlatLinks wscan.1 wscan.2 := by
   · exact ⟨[[0x61]], flatAt_of_flatAtB (by decide)⟩
   · exact ⟨[[0x61]], flatAt_of_flatAtB (by decide)⟩
 
+/-- the scan of the witness forest succeeds (hypothesis of `scan_tree_sorted`), with either iterator -/
+example : (packDir true wd wcfg (fun _ _ _ => true) 1 [fc, fb, fa]).isSome = true := by decide
+example : (packDir false wd wcfg (fun _ _ _ => true) 1 [fc, fb, fa]).isSome = true := by decide
+
 example : (insertSorted (.mk [0x62] default []) [.mk [0x61] default [], .mk [0x63] default []]).map TNode.name
     = [[0x61], [0x62], [0x63]] := by decide
 
